@@ -3,6 +3,7 @@ package oracle
 import (
 	"bytes"
 	"fmt"
+	"math/big"
 	"strconv"
 	"strings"
 
@@ -399,8 +400,138 @@ func checkPrefixDecode(rep *Reporter, p string, maxLen int, data []byte) {
 		}
 		if p != "ber" && len(data) < w {
 			rep.Viol("DecodeLength accepted a prefix that is too short", line, "")
+			return
+		}
+		// the accepted prefix is a number in the prefixer's alphabet, DecodeLength returns that
+		// number and (BER) consumes exactly the bytes of the length form
+		if want, wantRead, numeric, known := refPrefixNumber(p, data); known {
+			switch {
+			case !numeric:
+				rep.Viol("DecodeLength accepted a prefix that is not a number in the prefixer's alphabet", line, fmt.Sprintf("returned %d", n))
+			case want.IsInt64() && int(want.Int64()) != n:
+				rep.Viol("DecodeLength returned a different number than the prefix denotes", line, fmt.Sprintf("returned %d, the prefix denotes %s", n, want))
+			case !want.IsInt64():
+				rep.Viol("DecodeLength accepted a length that does not fit an int", line, fmt.Sprintf("returned %d, the prefix denotes %s", n, want))
+			case read != wantRead:
+				rep.Viol("DecodeLength consumed a different number of bytes than the length form occupies", line, fmt.Sprintf("read %d, the length form has %d bytes", read, wantRead))
+			}
 		}
 	})
+}
+
+// refPrefixNumber reads a length prefix from the documented formats alone. known=false: no
+// reference for this prefixer (Fixed, None); numeric=false: the bytes are not a number in the
+// prefixer's alphabet. Decimal text may carry a leading sign (strconv.Atoi reads it: "+5" is 5, "-0" is 0; a
+// negative number must be refused by DecodeLength anyway).
+func refPrefixNumber(p string, data []byte) (val *big.Int, read int, numeric, known bool) {
+	if p == "ber" {
+		if len(data) == 0 {
+			return nil, 0, false, true
+		}
+		if data[0] < 0x80 {
+			return big.NewInt(int64(data[0])), 1, true, true
+		}
+		k := int(data[0] & 0x7F)
+		if len(data) < 1+k {
+			return nil, 0, false, true
+		}
+		return new(big.Int).SetBytes(data[1 : 1+k]), 1 + k, true, true
+	}
+	parts := strings.Split(p, ".")
+	if len(parts) != 2 || parts[1] == "F" {
+		return nil, 0, false, false
+	}
+	d, _ := strconv.Atoi(parts[1])
+	w, _ := prefWidthAlphabet(p)
+	if len(data) < w {
+		return nil, 0, false, true
+	}
+	pre := data[:w]
+	decimal := func(txt []byte) (v *big.Int, ok bool) {
+		neg := false
+		if len(txt) > 0 && (txt[0] == '+' || txt[0] == '-') {
+			neg = txt[0] == '-'
+			txt = txt[1:]
+		}
+		if len(txt) == 0 {
+			return nil, false
+		}
+		defer func() {
+			if neg && v != nil {
+				v.Neg(v)
+			}
+		}()
+		v = new(big.Int)
+		for _, c := range txt {
+			if c < '0' || c > '9' {
+				return nil, false
+			}
+			v.Mul(v, big.NewInt(10)).Add(v, big.NewInt(int64(c-'0')))
+		}
+		return v, true
+	}
+	switch parts[0] {
+	case "ascii":
+		v, ok := decimal(pre)
+		return v, w, ok, true
+	case "ebcdic", "ebcdic1047":
+		txt := make([]byte, len(pre))
+		for i, b := range pre {
+			switch {
+			case b >= 0xF0 && b <= 0xF9:
+				txt[i] = '0' + (b - 0xF0)
+			case b == 0x4E:
+				txt[i] = '+'
+			case b == 0x60:
+				txt[i] = '-'
+			default:
+				return nil, w, false, true
+			}
+		}
+		v, ok := decimal(txt)
+		return v, w, ok, true
+	case "bcd":
+		// d digits right-aligned in ceil(d/2) bytes; with an odd d the leading nibble is a filler the
+		// decoder does not look at (no verdict when it is not a decimal digit)
+		var nib []byte
+		for _, b := range pre {
+			nib = append(nib, b>>4, b&0xF)
+		}
+		if d%2 == 1 {
+			if nib[0] > 9 {
+				return nil, 0, false, false
+			}
+			nib = nib[1:]
+		}
+		v := new(big.Int)
+		for _, x := range nib {
+			if x > 9 {
+				return nil, w, false, true
+			}
+			v.Mul(v, big.NewInt(10)).Add(v, big.NewInt(int64(x)))
+		}
+		return v, w, true, true
+	case "binary":
+		return new(big.Int).SetBytes(pre), w, true, true
+	case "hex":
+		v := new(big.Int)
+		for _, c := range pre {
+			var x byte
+			switch {
+			case c >= '0' && c <= '9':
+				x = c - '0'
+			case c >= 'a' && c <= 'f':
+				x = c - 'a' + 10
+			case c >= 'A' && c <= 'F':
+				x = c - 'A' + 10
+			default:
+				return nil, w, false, true
+			}
+			v.Mul(v, big.NewInt(16)).Add(v, big.NewInt(int64(x)))
+		}
+		return v, w, true, true
+	}
+	return nil, 0, false, false
 }
 
 func runC06(t gen.Tier, r *gen.Rng, rep *Reporter) {
